@@ -28,7 +28,7 @@ import (
 
 func init() {
 	Register(&Scenario{
-		Name: "c07_contract_seq", Property: "C07", MaxSteps: 4000, Quick: 400, Thorough: 12000,
+		Name: "c07_contract_seq", Property: "C07", MaxSteps: 4000, Quick: 1000, Thorough: 25000,
 		Doc:  "the production payment wiring: PaymentService over payment.ContractPayment (deposit cache fed by contract events) with the real vipnode pool contract on go-ethereum's simulated chain; wallets deposit, earn credit, withdraw repeatedly; blocks are mined when the scenario decides (a settlement is pending until then); at the end everything paid out of the contract is covered by what the withdrawing wallets deposited and earned - other depositors' money is never touched",
 		Real: []string{"pool/payment PaymentService + contractPayment (cache, event subscription, OpSettle)", "vipnode pool contract (EVM bytecode)", "go-ethereum simulated backend", "store driver", "request signing"},
 		Stub: []string{"no RPC layer: the payment service is called directly", "block production (a scenario decision)"},
@@ -243,7 +243,9 @@ func runC07Contract(s *kernel.Sim) {
 		s.Settle()
 	}
 
-	driver := []string{"memory", "badger"}[s.Choose("driver", 2)]
+	// (the persistent driver's background tickers make the days of simulated time that pass here expensive; what this
+	// world is about happens above the store, one run in four keeps the pool's books in it)
+	driver := []string{"memory", "memory", "memory", "badger"}[s.Choose("driver", 4)]
 	var inner store.Store
 	if driver == "badger" {
 		inner, err = seams.OpenStore(s, "badger", seams.ScratchDir(s, "c07c"), 1)
@@ -350,6 +352,10 @@ func runC07Contract(s *kernel.Sim) {
 	// things that take time: each is open for a few operations
 	resubOpensAt, eventsFlowAt, answerAt := -1, -1, -1
 	hot, hotUntil := 0, -1
+	lostOnce := false // the subscription has lost its connection once (one loss per history)
+	downLooked := 0   // the wallet somebody looked at while the pool had no subscription
+	askNext := 0      // the wallet that asks for its money next
+	mineNext := false // the next thing that happens is a block
 	openGates := func(i int, all bool) {
 		if resubOpensAt >= 0 && (all || i >= resubOpensAt) {
 			close(backend.gate("resub"))
@@ -379,11 +385,13 @@ func runC07Contract(s *kernel.Sim) {
 		}
 		time.Sleep(time.Millisecond) // nonces are clock readings
 		openGates(i, false)
-		if dropAt > i && (answerAt >= 0 || eventsFlowAt >= 0) && s.Choose("losenow", 3) == 0 {
+		if (dropAt > i || dropAt == -1 && !lostOnce) && (answerAt >= 0 || eventsFlowAt >= 0) && s.Choose("losenow", 3) == 0 {
 			// connections fail while things are in flight on them, not while they are idle
 			dropAt = i
 		}
 		if i == dropAt {
+			lostOnce = true
+			downLooked = 0
 			if g := s.Choose("resubslow", 4); g > 0 {
 				// the new subscription takes a while (reconnect): it exists g operations from now
 				backend.setGate("resub", make(chan struct{}))
@@ -413,14 +421,26 @@ func runC07Contract(s *kernel.Sim) {
 		if i == dropAt || op == 12 || op == 13 {
 			hot, hotUntil = w, i+6
 		}
-		if eventsFlowAt >= 0 && hot > 0 && s.Choose("whileheld", 4) == 0 {
+		if mineNext {
+			op, mineNext = 5, false
+		} else if askNext > 0 {
+			op, w, askNext = 0, askNext, 0
+		} else if eventsFlowAt >= 0 && hot > 0 && s.Choose("whileheld", 4) == 0 {
 			// while events are on their way: the wallet takes its deposit out on chain (the event that says so is
 			// among those that have not arrived) - and, being the wallet in the picture, asks the pool for it too
 			op, w = 10, hot
+			if s.Choose("asktoo", 2) == 0 {
+				askNext = hot
+			}
 		}
 		if resubOpensAt >= 0 && s.Choose("whiledown", 2) == 1 {
-			// while the pool has no subscription: things that change on chain, and requests that look at them
-			op = []int{10, 14, 15, 15}[s.Choose("whiledown.op", 4)]
+			// while the pool has no subscription: requests that look at a wallet, and then things that change on chain
+			// for the wallet that was looked at
+			if downLooked == 0 {
+				op, downLooked = 15, w
+			} else {
+				op, w = []int{10, 14, 14, 15}[s.Choose("whiledown.op", 4)], downLooked
+			}
 		}
 		switch {
 		case op == 14: // a deposit, mined at once
@@ -503,7 +523,12 @@ func runC07Contract(s *kernel.Sim) {
 			settle()
 			s.Event("#%d chain exit(W%d): deposit withdrawn on chain", i, w)
 		case op <= 4: // withdraw
+			before := accepted
 			withdraw(i, w, respellings && s.Choose("lookfirst", 2) == 0)
+			if accepted > before && answerAt >= 0 && s.Choose("minenext", 2) == 0 {
+				// the settlement is mined while the chain's answer to an earlier question is still on its way
+				mineNext = true
+			}
 		case op <= 6: // a block is mined: pending settlements and deposits take effect, events reach the pool
 			mine()
 			settle()
@@ -548,7 +573,7 @@ func runC07Contract(s *kernel.Sim) {
 	openGates(nops, true)
 	mine()
 	settle()
-	if s.Choose("finalsweep", 3) != 0 {
+	if s.Choose("finalsweep", 2) != 0 {
 		// (not always: a withdrawal makes the pool forget what it has cached for the wallet, and what the pool says
 		// about wallets nobody withdraws from is judged below, too)
 		for w := 1; w <= 2 && !s.Violated(); w++ {
